@@ -19,8 +19,9 @@ Deterministic given the rng.  Importing the module has no side effects.
 import os, sys, random, collections
 
 sys.path.insert(0, os.path.dirname(os.path.abspath(__file__)))
+import dictionary  # noqa: E402
 from core import (Writer, span, opt, lst, hexs, run_lines, split_side, DRIVER,  # noqa: E402
-                  build_harness, CARGO_TARGET)
+                  build_harness, CARGO_TARGET, REPO)
 
 HARNESS = CARGO_TARGET + '/debug/tlsverif'
 MAX_REC = (1 << 14) + 256          # MAX_RECORD_LEN of the crate (RFC 8446 5.2 ciphertext bound)
@@ -86,10 +87,15 @@ def ctor(name, *f):
     return '(%s)' % ' '.join([name] + [str(x) for x in f]) if f else name
 
 
+def rbytes(rng, n, p=0.12):
+    """n value bytes: random, or carrying a dictionary entry (protocol magic values and the literals of /repo's sources)"""
+    return dictionary.plant(rng, n, dictionary.harvest(REPO), p)
+
+
 def opaque(rng, w, width, n, kind):
     """length-prefixed random bytes -> span of the bytes"""
     h = w.lenfield(width, kind)
-    s = w.raw(rng.randbytes(n))
+    s = w.raw(rbytes(rng, n))
     w.close(h)
     return s
 
@@ -158,7 +164,7 @@ def gen_sct_entry(rng, w, big=600):
     h = w.lenfield(2, 'sct')
     ver = code(rng, 1, (0,))
     w.u(1, ver)
-    kid = w.raw(rng.randbytes(32))
+    kid = w.raw(rbytes(rng, 32))
     ts = rng.choice((0, 1, (1 << 64) - 1, rng.randrange(1 << 64), rng.randrange(1 << 41)))
     w.u(8, ts)
     ext = opaque(rng, w, 2, rlen(rng, min(big, 4000), hi=65535), 'sct_ext')
@@ -309,11 +315,11 @@ def _x_esni(rng, w, big):
 
 
 def _x_grease(rng, w, big, t):
-    return ctor('Grease', t, w.raw(rng.randbytes(rlen(rng, big, hi=65535))))
+    return ctor('Grease', t, w.raw(rbytes(rng, rlen(rng, big, hi=65535))))
 
 
 def _x_unknown(rng, w, big, t):
-    return ctor('Unknown', t, w.raw(rng.randbytes(rlen(rng, big, hi=65535))))
+    return ctor('Unknown', t, w.raw(rbytes(rng, rlen(rng, big, hi=65535))))
 
 
 # kind -> (extension type, content generator).  28 variants of TlsExtension.
@@ -415,7 +421,7 @@ def gen_extension_list(rng, w, n=None, disp='ext', big=600):
 def _sid(rng, w):
     n = rng.choice((0, 0, 0, 1, 2, 16, 31, 32, 32, rng.randint(0, 32)))
     h = w.lenfield(1, 'sid')
-    s = w.raw(rng.randbytes(n))
+    s = w.raw(rbytes(rng, n))
     w.close(h)
     return opt(s if n else None)
 
@@ -440,7 +446,7 @@ def body_client_hello(rng, w, big=600, ext=None, dtls=False):
     ext = rng.random() < .6 if ext is None else ext
     ver = code(rng, 2, VERSIONS)
     w.u(2, ver)
-    f = [ver, w.raw(rng.randbytes(32)), _sid(rng, w)]
+    f = [ver, w.raw(rbytes(rng, 32, .25)), _sid(rng, w)]
     if dtls:
         f.append(opaque(rng, w, 1, rlen(rng, big, hi=255), 'cookie'))
     h = w.lenfield(2, 'ciphers')
@@ -462,7 +468,7 @@ def body_server_hello(rng, w, big=600, version=None, ext=None, dtls=False):
         version = code(rng, 2, VERSIONS) if dtls else rng.choice(SH_VERSIONS)
     ext = rng.random() < .6 if ext is None else ext
     w.u(2, version)
-    rnd = w.raw(rng.randbytes(32))
+    rnd = w.raw(rbytes(rng, 32, .25))
     if version == 0x7f12 and not dtls:
         c = code(rng, 2, (0x1301, 0x1302, 0x1303))
         w.u(2, c)
